@@ -73,7 +73,7 @@ pub fn run_wf(block: u32, password: usize, dir: &str, items: Vec<Vec<u8>>) -> St
         let (client, term) = tokio::io::duplex(1 << 22);
         let log: Log = Arc::new(Mutex::new(vec![]));
         let t = tokio::spawn(scripted_terminal(term, items));
-        let mut tr = zvt::io::PacketTransport { source: Rec { inner: client, log: log.clone() } };
+        let mut tr = zvt::io::PacketTransport { source: Rec { inner: client, log: log.clone(), nap: None, napped: false } };
         {
             let mut stream = zvt::feig::sequences::WriteFile::into_stream(path, password, block, &mut tr);
             loop {
